@@ -2,10 +2,11 @@
 32-bit wrap-around arithmetic of kcp.go: `_itimediff`, and little-endian byte codecs.
 Core Lean only.
 -/
+import KcpVerif.Model.Bytes
+
 namespace KcpVerif
 
 abbrev U32 := BitVec 32
-abbrev Bytes := List UInt8
 
 /-- `_itimediff(later, earlier) = int32(later - earlier)` -/
 def itimediff (later earlier : U32) : Int := (later - earlier).toInt
